@@ -42,6 +42,36 @@ def run(P, ctx):
     from rules import leftright
     leftright.check(P, res, "C08-3", r"^fibre::<?spmc::topic::", 4)
     leftright.check_relative(P, res, "C08-4", r"^fibre::<?spmc::topic::", 4)
+    rid = "C08-6"
+    res.rule(rid, "the last sender's disconnect reaches every receiver, whatever its subscriptions: in the close path of the topic senders the mailboxes that are told "
+                  "`disconnect` are not taken from the per-topic subscription map alone — a receiver that holds no subscription at that moment (never subscribed, or "
+                  "unsubscribed from everything) is in none of those lists, is never told, and reports Empty (or blocks in recv) for ever")
+    k6 = 0
+    for b in P.bodies.values():
+        if not re.search(r"^fibre::spmc::topic::(sync_impl::TopicSender|async_impl::AsyncTopicSender)::<K, T>::close_internal", b.id):
+            continue
+        fam = [b] + [c for c in P.bodies.values() if c.root == b.id and c.id != b.id]
+        dis = [(x, e) for x in fam for e in x.calls() if e.method == "disconnect" and "mailbox" in (e.callee or "").lower()]
+        if not dis:
+            continue
+        k6 += 1
+        sources = set()
+        for x in fam:
+            for e in x.calls():
+                if e.args:
+                    pth = x.path_of_operand(e.args[0])
+                    m6 = re.search(r"dispatcher\.(\w+)$", pth.split("@")[0])
+                    if m6 and e.method in ("pin", "iter", "lock", "read", "enter", "load", "get"):
+                        sources.add(m6.group(1))
+        sources.discard("sender_count")
+        sources.discard("receiver_count")
+        if sources and sources != {"subscriptions"}:
+            res.holds(rid, b.id, f"receivers are reached through {sorted(sources)}", where=dis[0][1].loc)
+        else:
+            res.violated(rid, b.id, "the last sender disconnects only the mailboxes found in the per-topic subscription lists: a receiver without a subscription never observes "
+                         "Disconnected", where=dis[0][1].loc)
+    if k6 < 2:
+        res.unclassified(rid, "sender-close-paths", f"expected the close paths of TopicSender and AsyncTopicSender to disconnect mailboxes, found {k6}", where="rules/c08.py")
     rid = "C08-5"
     res.rule(rid, "a topic's subscriber list is never unhooked from the dispatcher while the channel lives: nothing removes an entry from the dispatcher's topic map "
                   "(papaya map `subscriptions`: remove / remove_if / retain / clear / take) — `subscribe` fetches the list's Arc from the map and pushes its mailbox afterwards, so "
